@@ -279,6 +279,33 @@ type Result struct {
 	breakAfter int
 }
 
+// applyAlter applies one action of an ALTER TABLE.
+func (db *DB) applyAlter(a any) *Error {
+	switch s := a.(type) {
+	case alterAddConstraint:
+		t, err := db.table(s.table)
+		if err != nil {
+			return err
+		}
+		return db.addConstraint(t, s.c)
+	case alterSetDefault:
+		t, err := db.table(s.table)
+		if err != nil {
+			return err
+		}
+		ci, err := t.col(s.col)
+		if err != nil {
+			return err
+		}
+		if err := db.validate(s.def, nil, nil); err != nil {
+			return err
+		}
+		t.Cols[ci].Default = s.def
+		return nil
+	}
+	return errf("syntax", "unsupported ALTER TABLE action %T", a)
+}
+
 // Exec parses and executes one statement with positional arguments.
 func (db *DB) Exec(sql string, args []any) (res *Result, kind string, e *Error) {
 	defer func() {
@@ -343,26 +370,15 @@ func (db *DB) Exec(sql string, args []any) (res *Result, kind string, e *Error) 
 			}
 		}
 		return &Result{}, "ddl", nil
-	case alterAddConstraint:
-		t, err := db.table(s.table)
-		if err != nil {
-			return nil, "ddl", err
+	case alterMulti:
+		for _, a := range s.actions {
+			if err := db.applyAlter(a); err != nil {
+				return nil, "ddl", err
+			}
 		}
-		return &Result{}, "ddl", db.addConstraint(t, s.c)
-	case alterSetDefault:
-		t, err := db.table(s.table)
-		if err != nil {
-			return nil, "ddl", err
-		}
-		ci, err := t.col(s.col)
-		if err != nil {
-			return nil, "ddl", err
-		}
-		if err := db.validate(s.def, nil, nil); err != nil {
-			return nil, "ddl", err
-		}
-		t.Cols[ci].Default = s.def
 		return &Result{}, "ddl", nil
+	case alterAddConstraint, alterSetDefault:
+		return &Result{}, "ddl", db.applyAlter(s)
 	case createIndex:
 		t, err := db.table(s.table)
 		if err != nil {
